@@ -96,8 +96,8 @@ impl Property for C11 {
     fn budget(&self, tier: Tier) -> Budget {
         match tier {
             Tier::Quick => Budget {
-                seconds: 25,
-                max_cases: 30_000,
+                seconds: 60,
+                max_cases: 14_000,
             },
             Tier::Thorough => Budget {
                 seconds: 600,
